@@ -101,7 +101,7 @@ def main():
         except Exception as e:
             wiring = "bad:%s:constructor-raises-%s" % (name, type(e).__name__); break
         for p_, v in zip(ps, vals):
-            an = re.sub(r"^inherited\d+__", "", p_)
+            an = p_ if hasattr(obj, p_) else re.sub(r"^inherited\d+__", "", p_)     # an own attribute may itself be called inherited<i>__…
             try:
                 got = getattr(inst, an)
             except Exception as e:
@@ -113,7 +113,7 @@ def main():
         # every explicit attribute's setter evaluates its type expression: a plain object must be refused with
         # TypeError (the type check), nothing else (an unresolvable name, a malformed aggregate expression, …)
         for p_ in ps:
-            an = re.sub(r"^inherited\d+__", "", p_)
+            an = p_ if hasattr(obj, p_) else re.sub(r"^inherited\d+__", "", p_)     # an own attribute may itself be called inherited<i>__…
             try:
                 setattr(inst, an, object())
                 wiring = "bad:%s.%s:setter-accepts-any-object" % (name, an)
